@@ -40,8 +40,7 @@ let run_case cid (t : toks) =
     Printf.printf "%s ST %s %d 0\n" cid tag (int_of_nat s.cg_iter);
     Printf.printf "%s H %s\n" cid (qs_str s.cg_hist);
     if par then begin
-      let sc = q_par_cg_scale sizes b in
-      Printf.printf "%s HS %s\n" cid (qs_str (List.map (fun h -> qcdiv h sc) s.cg_hist)) end;
+      Printf.printf "%s HS %s\n" cid (qs_str (q_par_cg_reported sizes b s.cg_hist)) end;
     Printf.printf "%s X %s\n" cid (qs_str s.cg_x)
   | "bi_seq" | "bi_par" ->
     let (n, a, b, x0, tol, maxit, p, sizes) = read_system t in
